@@ -30,7 +30,7 @@ REQUIRED_CLAUSES = ["ctor.list6", "ctor.arr6", "ctor.arr6x1", "ctor.list3", "cto
 
 def plan(tier, seed):
     if tier == "quick":
-        return [{"n": 2500, "timeout_s": 1800} for _ in range(8)]
+        return [{"n": 2500, "timeout_s": 1800} for _ in range(16)]
     return [{"n": 62500, "timeout_s": 7200} for _ in range(16)]
 
 
@@ -209,7 +209,7 @@ def run_shard(spec, ctx):
     for _ in range(int(spec["n"])):
         case = gen_case(ctx.rng)
         ta = np.array(case["a"])
-        ctx.case({k: gen.quant(case[k]) for k in "abc"}, bool(np.linalg.norm(ta[3:]) > 1e-3 and np.linalg.norm(ta[:3]) > 0))
+        ctx.case({k: gen.quant(case[k]) for k in "abc"}, bool(np.linalg.norm(ta[3:]) > 1e-3 and np.linalg.norm(ta[:3]) > 0), sample=case)
         try:
             check_case(case, ctx, tm, fsr)
         except Exception as e:
